@@ -670,6 +670,109 @@ theorem sound_generated (cv : CustomValidators) (m : Model) (ps : Option (List S
 
 /-! ### non-vacuity and regression examples -/
 
+/-! ### the parameter set only decides the `ParameterIssue`s
+
+`Model.get_issues(parameters=P)` = `Model.get_issues()` plus one `ParameterIssue` per parameter
+position whose label is not in `P`: the statement "reports an issue for every parameter referenced
+but not defined … and nothing for a model whose references all resolve" is monotone — giving more
+parameters can only remove issues, removing a parameter (the quantifier's "every single parameter
+removed in turn") can only add `ParameterIssue`s for exactly that label. -/
+
+/-- **Parameters only add parameter issues (1)**: everything `get_issues()` reports without a
+    parameter set is also reported by `get_issues(parameters=P)`, for any `P`. -/
+theorem issues_without_parameters_subset (cv : CustomValidators) (vt : VTable) (sch : Schema)
+    (m : Model) (P : List String) {r0 r : List Issue}
+    (h0 : getIssues cv vt sch m none = .ok r0) (h : getIssues cv vt sch m (some P) = .ok r) :
+    ∀ i ∈ r0, i ∈ r := by
+  intro i hi
+  unfold getIssues at h0 h
+  obtain ⟨it, hit, bs0, hb0, hib0⟩ := (collectM_mem h0 i).mp hi
+  obtain ⟨bs, hb⟩ := collectM_each h it hit
+  refine (collectM_mem h i).mpr ⟨it, hit, bs, hb, ?_⟩
+  obtain ⟨a1, a2, a3, ha1, ha2, ha3, rfl⟩ := itemIssues_ok hb0
+  obtain ⟨b1, b2, b3, hb1, hb2, _, rfl⟩ := itemIssues_ok hb
+  rw [ha1] at hb1; rw [ha2] at hb2
+  cases hb1; cases hb2
+  simp only at ha3
+  subst ha3
+  simp only [List.append_nil, List.mem_append] at hib0 ⊢
+  exact Or.inl hib0
+
+/-- **Parameters only add parameter issues (2)**: an issue of `get_issues(parameters=P)` is an
+    issue of `get_issues()` or a `ParameterIssue` for a label that is not in `P`. -/
+theorem issues_with_parameters_extra (cv : CustomValidators) (vt : VTable) (sch : Schema)
+    (m : Model) (P : List String) {r0 r : List Issue}
+    (h0 : getIssues cv vt sch m none = .ok r0) (h : getIssues cv vt sch m (some P) = .ok r) :
+    ∀ i ∈ r, i ∈ r0 ∨ ∃ l, i = .missingParam l ∧ l ∉ P := by
+  intro i hi
+  unfold getIssues at h0 h
+  obtain ⟨it, hit, bs, hb, hib⟩ := (collectM_mem h i).mp hi
+  obtain ⟨bs0, hb0⟩ := collectM_each h0 it hit
+  obtain ⟨a1, a2, a3, ha1, ha2, ha3, rfl⟩ := itemIssues_ok hb0
+  obtain ⟨b1, b2, b3, hb1, hb2, hb3, rfl⟩ := itemIssues_ok hb
+  rw [ha1] at hb1; rw [ha2] at hb2
+  cases hb1; cases hb2
+  simp only at ha3 hb3
+  subst ha3
+  rcases List.mem_append.mp hib with h12 | h3
+  · exact Or.inl ((collectM_mem h0 i).mpr ⟨it, hit, _, hb0, by simpa using h12⟩)
+  · obtain ⟨a, _, cs, hcs, hic⟩ := (collectM_mem hb3 i).mp h3
+    obtain ⟨_, l, _, _, _, hn, rfl⟩ := (attrParamIssues_mem hcs i).mp hic
+    exact Or.inr ⟨l, rfl, hn⟩
+
+/-- **Validation is antitone in the parameter set**: adding parameters (`P ⊆ P'`) never adds an
+    issue — every issue reported with the larger set is reported with the smaller one. -/
+theorem issues_antitone_in_parameters (cv : CustomValidators) (vt : VTable) (sch : Schema)
+    (m : Model) (P P' : List String) (hsub : ∀ x ∈ P, x ∈ P') {r r' : List Issue}
+    (h : getIssues cv vt sch m (some P) = .ok r) (h' : getIssues cv vt sch m (some P') = .ok r') :
+    ∀ i ∈ r', i ∈ r := by
+  intro i hi
+  unfold getIssues at h h'
+  obtain ⟨it, hit, bs', hb', hib'⟩ := (collectM_mem h' i).mp hi
+  obtain ⟨bs, hb⟩ := collectM_each h it hit
+  refine (collectM_mem h i).mpr ⟨it, hit, bs, hb, ?_⟩
+  obtain ⟨a1, a2, a3, ha1, ha2, ha3, rfl⟩ := itemIssues_ok hb
+  obtain ⟨b1, b2, b3, hb1, hb2, hb3, rfl⟩ := itemIssues_ok hb'
+  rw [ha1] at hb1; rw [ha2] at hb2
+  cases hb1; cases hb2
+  simp only at ha3 hb3
+  rcases List.mem_append.mp hib' with h12 | h3
+  · exact List.mem_append.mpr (Or.inl h12)
+  · refine List.mem_append.mpr (Or.inr ?_)
+    obtain ⟨a, ha, cs', hcs', hic'⟩ := (collectM_mem hb3 i).mp h3
+    obtain ⟨cs, hcs⟩ := collectM_each ha3 a ha
+    refine (collectM_mem ha3 i).mpr ⟨a, ha, cs, hcs, ?_⟩
+    obtain ⟨ls, l, hk, hls, hl, hn, rfl⟩ := (attrParamIssues_mem hcs' _).mp hic'
+    exact (attrParamIssues_mem hcs _).mpr ⟨ls, l, hk, hls, hl, fun hp => hn (hsub l hp), rfl⟩
+
+/-- whether validation ends in an internal error does not depend on which parameters are given:
+    only the shape of the parameter positions is inspected -/
+theorem parameters_do_not_change_totality (cv : CustomValidators) (vt : VTable) (sch : Schema)
+    (m : Model) (P P' : List String) {r : List Issue}
+    (h : getIssues cv vt sch m (some P) = .ok r) :
+    ∃ r', getIssues cv vt sch m (some P') = .ok r' := by
+  unfold getIssues at h ⊢
+  apply collectM_isOk
+  intro it hit
+  obtain ⟨bs, hb⟩ := collectM_each h it hit
+  obtain ⟨a1, a2, a3, ha1, ha2, ha3, rfl⟩ := itemIssues_ok hb
+  simp only at ha3
+  have h3 : ∃ c3, collectM (attrParamIssues P' it) (specOf sch it.spec).attrs = .ok c3 := by
+    apply collectM_isOk
+    intro a ha
+    obtain ⟨cs, hcs⟩ := collectM_each ha3 a ha
+    unfold attrParamIssues at hcs ⊢
+    cases hk : a.kind with
+    | param =>
+      simp only [hk] at hcs ⊢
+      cases hl : it.labels a with
+      | error e => simp [hl] at hcs
+      | ok ls => exact ⟨_, rfl⟩
+    | item c => exact ⟨_, rfl⟩
+    | plain => exact ⟨_, rfl⟩
+  obtain ⟨c3, hc3⟩ := h3
+  exact ⟨a1 ++ a2 ++ c3, by simp [itemIssues, ha1, ha2, hc3]⟩
+
 def exVT : VTable := [
   ("validate_megacomplexes", .resolved "megacomplex" true true stdRules),
   ("validate_lengths", .lengthsEqual ["labels", "rates"]),
@@ -816,5 +919,14 @@ example : (specOf Generated.schema "megacomplex/baseline").unique = true ∧
     (specOf Generated.schema "megacomplex/clp-guide").exclusive = true := by decide
 example : predOf Generated.validators "glotaran.model.dataset_model.validate_megacomplexes"
     = .resolved "megacomplex" true true stdRules := by decide
+
+
+-- non-vacuity: the hypotheses are met by a concrete model, and the inclusion is strict there
+example : getIssues noCustom exVT exSchema (exModel ["m1"]) (some ["s", "c"]) = .ok [.missingParam "k.1"] ∧
+    getIssues noCustom exVT exSchema (exModel ["m1"]) (some ["s", "c", "k.1"]) = .ok [] ∧
+    getIssues noCustom exVT exSchema (exModel ["m1"]) none = .ok [] := by decide
+example : ∀ i ∈ ([] : List Issue), i ∈ [Issue.missingParam "k.1"] :=
+  issues_antitone_in_parameters noCustom exVT exSchema (exModel ["m1"]) ["s", "c"] ["s", "c", "k.1"]
+    (by decide) (by decide) (by decide)
 
 end Glotaran.C20
